@@ -572,6 +572,21 @@ fn c11(src: &str) -> R {
                 return Err(format!("`*` at token {i} inside a statement was lexed as a comment"));
             }
         }
+        // identifiers and keywords are longest matches: `_`/XID_Start, then XID_Continue, and no identifier character follows
+        let name = format!("{:?}", k.ty);
+        if k.ty == T::Identifier || (name.starts_with("Kw") && !name.starts_with("Kwm") && k.b1 > k.b0 && src[k.b0..].starts_with(|c: char| c == '_' || unicode_ident::is_xid_start(c))) {
+            let txt = &src[k.b0..k.b1];
+            let mut cs = txt.chars();
+            let first_ok = cs.next().is_some_and(|c| c == '_' || unicode_ident::is_xid_start(c));
+            if !first_ok || !cs.all(unicode_ident::is_xid_continue) {
+                return Err(format!("identifier-like token {i} {txt:?} is not `_`/XID_Start followed by XID_Continue"));
+            }
+            if let Some(n) = src[k.b1..].chars().next() {
+                if unicode_ident::is_xid_continue(n) {
+                    return Err(format!("identifier-like token {i} {txt:?} is not the longest match: {n:?} follows"));
+                }
+            }
+        }
         if k.ch == TokenChannel::DEFAULT {
             last_default = Some(k);
         }
@@ -584,7 +599,20 @@ fn signature(src: &str) -> Result<Vec<(TokenType, TokenChannel, usize, u32, Stri
     let r = lex(src)?;
     let t = toks(&r.buffer)?;
     let mut v: Vec<_> = t.iter().map(|k| {
-        let p = match k.payload { Payload::Integer(x) => format!("I{x}"), Payload::Float(f) => format!("F{f}"), Payload::StringLiteral(a, b) => format!("S{}", b - a), Payload::None => "N".into() };
+        let p = match k.payload {
+            Payload::Integer(x) => format!("I{x}"),
+            Payload::Float(f) => format!("F{f}"),
+            // unquoted text may differ in letter case only; a decoded hex value may not differ at all
+            Payload::StringLiteral(a, b) => {
+                let v = r.buffer.string_literals_buffer().get(a as usize..b as usize).unwrap_or("<bad range>");
+                if k.ty == TokenType::HexStringLiteral && !r.errors.iter().any(|e| e.error_kind() == ErrorKind::InvalidHexStringConstant) {
+                    format!("X{v}")
+                } else {
+                    format!("S{}", v.to_ascii_lowercase())
+                }
+            }
+            Payload::None => "N".into(),
+        };
         (k.ty, k.ch, k.b0, k.c0, p)
     }).collect();
     for e in &r.errors {
